@@ -1,8 +1,7 @@
 SPECIFICATION Spec
 CONSTANTS
   Paths = {"a", "d", "d/x"}
-  Rounds = 2
-  MaxEdits = 1
+  EditPlan <- Plan11
   Twin = TRUE
   Modes = {"inc", "incskip", "force", "forceskip"}
   Emit = FALSE
